@@ -36,6 +36,7 @@ from ._mypy_helpers import (
     find_return_stmts_recursive,
     get_argument_kind,
     get_classdef_definitions,
+    get_conditional_branches,
     get_funcdef_definitions,
     get_mypyfile_definitions,
     has_correct_type_of_any,
@@ -612,7 +613,7 @@ class MyPyAstVisitor:
                 if not isinstance(return_stmt.expr, mp_nodes.CallExpr | mp_nodes.MemberExpr):
                     # If the return statement is a conditional expression we parse the "if" and "else" branches
                     if isinstance(return_stmt.expr, mp_nodes.ConditionalExpr):
-                        for conditional_branch in [return_stmt.expr.if_expr, return_stmt.expr.else_expr]:
+                        for conditional_branch in get_conditional_branches(return_stmt.expr):
                             if conditional_branch is None:  # pragma: no cover
                                 continue
 
